@@ -2,9 +2,12 @@
    Only statements here; proofs live in Ws/*Proofs.v. The model is of the code after the repairs
    fixes/F5.patch (oversize frame refused before it is buffered) and fixes/F6.patch (FIN data frame
    inside a fragmented message refused). [lossy] stands for String::from_utf8_lossy. *)
-From AV Require Import Lib.Base Gen.Consts Ws.Mask Ws.MaskProofs Ws.MaskFast Ws.Frame Ws.FrameProofs
+From Coq Require Import String.
+From AV Require Import Lib.Base Lib.V Gen.Consts Ws.Mask Ws.MaskProofs Ws.MaskFast Ws.Frame Ws.FrameProofs
   Ws.Codec Ws.ParseProofs Ws.Stream Ws.StreamProofs Ws.MoreProofs Ws.Handshake Ws.HandshakeProofs
-  Ws.FrameSpec Ws.SpecProofs Ws.HdrProofs Ws.RoundProofs Ws.DeliverProofs Ws.RoundTrip Ws.OversizeProofs Ws.RoundTripSeq Ws.ReserveProofs.
+  Ws.FrameSpec Ws.SpecProofs Ws.HdrProofs Ws.RoundProofs Ws.DeliverProofs Ws.RoundTrip Ws.OversizeProofs Ws.RoundTripSeq Ws.ReserveProofs
+  Ws.Sha1 Ws.Base64 Ws.HashKey Ws.HashKeyProofs.
+Open Scope N_scope.
 
 (* ---------------- masking ---------------- *)
 
@@ -320,6 +323,63 @@ Proof.
   - eexists. split; [vm_compute; reflexivity|]. left. reflexivity.
   - eexists. vm_compute. reflexivity.
 Qed.
+
+(* ---------------- accept key: hash_key = base64(sha1(key ++ GUID)) ---------------- *)
+
+(* the Gallina SHA-1 agrees with the RFC 3174 test vectors TEST1, TEST2 (two blocks), TEST4
+   ("01234567" x 80, ten blocks) and the empty message *)
+Example C14_sha1_vectors :
+  hex_of_bytes (sha1 (hx "616263")) = "a9993e364706816aba3e25717850c26c9cd0d89d"%string /\
+  hex_of_bytes (sha1 []) = "da39a3ee5e6b4b0d3255bfef95601890afd80709"%string /\
+  hex_of_bytes (sha1 (hx "6162636462636465636465666465666765666768666768696768696a68696a6b696a6b6c6a6b6c6d6b6c6d6e6c6d6e6f6d6e6f706e6f7071"))
+    = "84983e441c3bd26ebaae4aa1f95129e5e54670f1"%string /\
+  hex_of_bytes (sha1 (concat (repeat (hx "3031323334353637") 80)))
+    = "dea356a2cddd90c7a7ecedc5ebb563934f460452"%string.
+Proof. vm_compute. repeat split; reflexivity. Qed.
+
+(* RFC 4648 section 10: "", "f", "fo", "foo", "foob", "fooba", "foobar" *)
+Example C14_base64_vectors :
+  base64 [] = [] /\ base64 (hx "66") = hx "5a673d3d" /\ base64 (hx "666f") = hx "5a6d383d" /\
+  base64 (hx "666f6f") = hx "5a6d3976" /\ base64 (hx "666f6f62") = hx "5a6d397659673d3d" /\
+  base64 (hx "666f6f6261") = hx "5a6d3976596d453d" /\ base64 (hx "666f6f626172") = hx "5a6d3976596d4679".
+Proof. vm_compute. repeat split; reflexivity. Qed.
+
+(* RFC 6455 section 1.3: "dGhlIHNhbXBsZSBub25jZQ==" gives "s3pPLMBiTxaQ9kYGzzhZRbK+xOo=" *)
+Example C14_rfc6455_accept_key :
+  hash_key (hx "6447686c49484e68625842735a5342756232356a5a513d3d") =
+  Val (hx "733370504c4d426954786151396b59477a7a685a52624b2b784f6f3d").
+Proof. vm_compute. reflexivity. Qed.
+
+(* hash_key never panics (neither the `unwrap` of encode_slice nor `assert_eq!(n, 28)` can fire):
+   for EVERY key the result is 27 characters of the base64 alphabet followed by '=' *)
+Theorem C14_hash_key_28 : forall key : bytes,
+  exists body, hash_key key = Val (body ++ [pad_char]) /\ length body = 27%nat /\
+               forallb is_b64char body = true.
+Proof. exact hash_key_shape. Qed.
+
+Theorem C14_hash_key_is_base64_sha1 : forall key : bytes,
+  hash_key key = Val (base64 (sha1 (key ++ ws_guid))).
+Proof. exact hash_key_val. Qed.
+
+(* base64 is lossless: the RFC 4648 decoder inverts the encoder on every byte string *)
+Theorem C14_base64_roundtrip : forall l : bytes,
+  Forall (fun b => b < 256) l -> base64_decode (base64 l) = l.
+Proof. exact base64_roundtrip. Qed.
+
+(* for every well-formed upgrade request ws::handshake answers with
+   Sec-WebSocket-Accept = base64(sha1(key ++ GUID)) of the request's (first) Sec-WebSocket-Key;
+   and it never panics: the `unwrap` of the key lookup is guarded by verify_handshake *)
+Theorem C14_handshake_accept_key : forall (method : bytes) (h : headers), wellformed method h ->
+  exists key, hget s_key h = Some key /\
+              handshake method h = Val (HsOk (base64 (sha1 (key ++ ws_guid)))).
+Proof. exact handshake_accept_key. Qed.
+
+Theorem C14_handshake_total : forall (method : bytes) (h : headers),
+  match verify_handshake method h with
+  | Some e => handshake method h = Val (HsErr e)
+  | None => exists a, handshake method h = Val (HsOk a)
+  end.
+Proof. exact handshake_total. Qed.
 
 (* the default max_size of Codec::new() is the constant in the sources *)
 Example C14_default_max_size : c_max codec_new = WS_DEFAULT_MAX_SIZE.
